@@ -150,4 +150,9 @@ def run(ctx: Ctx):
                       scheme=["RK4", "RK2", "EF"][k % 3], rev=False, subgrid="none")
         sc["rows"] = [dict(sc["rows"][0], step=0, mult=1, X=float(sc["imax"] - 2.25), Y=float(sc["jmax"] - 2.25), Z=1.0)] + sc["rows"]
         ecases.append(sc)
+    # a forcing frame at every model step (time step = forcing interval), and frames one and two steps apart in turn: the
+    # stages at half and full step need the increment towards the *next* frame also when that frame is the next step
+    for k in range(4 if not ctx.thorough else 12):
+        ecases.append(scen.gen(ctx.seed * 100000 + 1800 + k, layout="sparse", kills=False, land=False, speed=1.0, continuous=False, nsteps=7,
+                               scheme=["RK4", "RK2"][k % 2], rev=bool(k % 4 == 2), subgrid="none", frame_gaps=[[1], [1, 1, 2], [2, 1]][k % 3]))
     scen.e2e_stream(ctx, "whole-run", ecases, "Ladim.C01.advect_EF/RK2/RK4 with the velocity of Ladim.Simulation.velocity_seen at the stage times")
